@@ -1,32 +1,6 @@
-"""Human-written level texts for MANIFEST.json (one entry per claimed property)."""
+"""MANIFEST texts come from config/Cxx.json ("text", "note"); properties without a config file are listed not_applicable."""
+from checks_config import PROPS
 
-TEXT = {
-    "C01": dict(
-        text="Lean theorems (OZ/Props/C01.lean) over a line-by-line model of Base::update / mint / transfer / transfer_from / "
-             "approve / burn / burn_from prove, by induction over ALL finite operation histories with arbitrary Int amounts "
-             "and arbitrary authorizing subsets: total_supply = sum of balances, balances >= 0, 0 <= supply <= i128::MAX "
-             "(inv_reachable); supply moves by exactly +amount / -amount / 0 (apply_inv, *_supply); the unchecked additions "
-             "in update can never overflow (update_no_overflow); a failed call is the identity (failed_no_effect); replaying "
-             "the emitted events reproduces every balance (replay_events). The model is tied to /repo by driving the real "
-             "library token through the Soroban host with exact authorization subsets, boundary amounts and ledger movement "
-             "and diffing every getter, event and demanded authorization after every call; the property's conclusion is also "
-             "evaluated directly on the implementation's observations (monitor).",
-        note="Trusted: Lean kernel; standard axioms only; hand-written model + differential correspondence; host rollback, "
-             "auth and TTL semantics. Proved for the Base token; other flavours funnel into Base::update (their gates are "
-             "covered under C04/C05/C13/C16)."),
-    "C12": dict(
-        text="Lean theorems (OZ/Props/C12.lean) prove for ALL x, y, d in i128 that the coded floor/ceil/trunc mul-div "
-             "(native product, else widening to I256 and narrowing; the private div_floor/div_ceil helpers exactly as "
-             "written) returns the exactly rounded quotient Int.fdiv/cdiv/tdiv (x*y) d when d != 0 and it fits in i128, "
-             "and the error outcome (panic / None) exactly otherwise, that the checked variants never panic, the I256 "
-             "variants are exact whenever the product fits in 256 bits, Wad checked_mul/checked_div/from_ratio are the "
-             "truncated exact quotient, and pow panics iff checked_pow is None. The model is tied to /repo by running the "
-             "real functions in-process on the boundary lattice cube and stratified random operands and diffing against "
-             "the compiled model; the exact specification is also evaluated directly on the implementation's answers.",
-        note="Trusted: Lean kernel; axioms propext/Classical.choice/Quot.sound only; the hand-written model and the "
-             "differential correspondence check; host I256 arithmetic semantics (trap on overflow). checked_pow is "
-             "proved panic-free and equivalent to pow; its numeric value (iterated truncation) is only differential-tested."),
-}
-
-_PENDING = "not yet built in this session (planned, see DESIGN.md section 12 build order); no check is registered for it yet"
+TEXT = {pid: dict(text=c["text"], note=c["note"]) for pid, c in PROPS.items()}
+_PENDING = "not yet built (planned, see DESIGN.md section 12 build order); no check is registered for it yet"
 NOT_APPLICABLE = [dict(property_id=f"C{n:02d}", reason=_PENDING) for n in range(1, 21) if f"C{n:02d}" not in TEXT]
